@@ -230,7 +230,12 @@ def classify_by_sections(by_merchant, sections_config, num_months=12):
         # Convert transaction format for section_engine
         section_txns = []
         for txn in txns:
-            txn_date = datetime.strptime(txn['month'] + '-15', '%Y-%m-%d')
+            # Rebuild the payment date from month ('YYYY-MM') and date ('MM/DD') so that
+            # by("day") / by("week") see the real days; mid-month if the day is unknown.
+            try:
+                txn_date = datetime.strptime(txn['month'] + '-' + txn['date'][-2:], '%Y-%m-%d')
+            except (KeyError, TypeError, ValueError):
+                txn_date = datetime.strptime(txn['month'] + '-15', '%Y-%m-%d')
             section_txns.append({
                 'amount': txn['amount'],
                 'date': txn_date,
